@@ -44,7 +44,7 @@ EXPLANATION = "lifted real receivers on symbolic streams; split index / mode men
 _NAMES = ["_formatNetstring", "NetstringReceiver", "LineOnlyReceiver", "_PauseableMixin", "LineReceiver",
           "_RecvdCompatHack", "IntNStringReceiver", "Int32StringReceiver", "Int16StringReceiver",
           "Int8StringReceiver"]
-L = lift.lift("twisted.protocols.basic", names=_NAMES, use_re=True,
+L = lift.lift("twisted.protocols.basic", names=_NAMES, use_re=True, encode_calls=True,
               overrides={"pack": lbytes.l_struct.pack, "unpack": lbytes.l_struct.unpack,
                          "calcsize": lbytes.l_struct.calcsize})
 
